@@ -23,6 +23,7 @@ import VaxisModel.Lemmas.KeyBodyPin
 import VaxisModel.Lemmas.GoInterp
 import VaxisModel.Lemmas.KeyBodyEvalString
 import VaxisModel.Lemmas.KeyBodyEvalDecode
+import VaxisModel.Lemmas.KeyBodyEvalMatch
 
 namespace VaxisModel.Props.C09Body
 open VaxisModel.Model.GoBody VaxisModel.Model.GoInterp VaxisModel.Model.Key VaxisModel.Model.KeyBody
@@ -111,6 +112,20 @@ example : decodeKeyGen VaxisModel.Props.C09Body.exUni (.csi [[97, 65], [6, 2]] 1
     some { keycode := 97, shifted := 65, mods := 5, event := 1 } := by decide +kernel
 /-- outside the `rune` range a `Seq.c0 b` is not a Go value: the body's `rune(seq)` wraps, the hand model does not -/
 example : decodeKeyGen VaxisModel.Props.C09Body.exUni (.c0 4294967304) ≠ some (decodeKey VaxisModel.Props.C09Body.exUni (.c0 4294967304)) := by
+  decide +kernel
+
+/-- **matchString_body_eq_model.** Running the body of `Key.MatchString` as extracted from key.go on
+    this run (the one-rune shortcut, `strings.Split`, the `"Ctrl++"` adjustment on the last two fields,
+    the modifier loop, the second one-rune shortcut, the `EqualFold` loop over `keyNames`, the
+    first-rune fallback) — with its calls `k.Matches(…)` run through the interpreted body of
+    `Key.Matches` — gives, for every `unicode` oracle, key event and binding string, exactly the
+    hand-written `Model.Key.matchString`. -/
+theorem matchString_body_eq_model (u : Uni) (k : Key) (tgt : Str) :
+    matchStringGen u k tgt = some (matchString u k tgt) :=
+  VaxisModel.Lemmas.KeyBodyEval.matchString_body_eq u k (fun key m => matches_body_eq_model u k key m) tgt
+
+-- "ctrl+a" against Ctrl+a (`exUni.toLower` is the identity)
+example : matchStringGen VaxisModel.Props.C09Body.exUni { keycode := 97, mods := 4 } [99, 116, 114, 108, 43, 97] = some true := by
   decide +kernel
 
 end VaxisModel.Props.C09Body
